@@ -63,6 +63,8 @@ def cv_case(draw, tier, estimators=("Lin", "Proba"), fdrs=(0.31,), weak=False):
         # a fold-count sweep: the same collections (shallow copies sharing one spectra table, the idiom of mokapot's own
         # tests) were brewed before with another number of folds
         "sweep_before": draw(st.sampled_from([None, None, None, "fewer", "more"])),
+        # brew is handed ONE already trained model (not a list of fold models): it serves as the starting point of every fold
+        "single_trained": draw(st.sampled_from([False, False, False, False, True])),
     }
 
 
@@ -158,6 +160,22 @@ def run_brew(case, tmp, train_fdr=0.23, override=True, max_iter=3, estimator=Non
             est = est_cls(log=logname)
             model = recorder.make_model(est, train_fdr=train_fdr, max_iter=max_iter, override=override, shuffle=True)
         cap = cap_value(case, dfs)
+        if case.get("single_trained") and estimator is None and not case.get("sweep_before"):
+            # an earlier analysis of the same collections supplies the trained model; its log is discarded
+            import copy
+
+            first = [copy.copy(p) for p in psms]
+            psms = [copy.copy(p) for p in psms]
+            try:
+                with config_inject.chunk_sizes(predict=case.get("predict_chunk"), readall=case.get("readall_chunk")):
+                    pre = guarded(mokapot.brew, first, model, test_fdr=case["test_fdr"], folds=case["folds"], max_workers=1, rng=case["rng"] + 7,
+                                  allowed=ALLOWED_BREW, sig="brew-first-analysis")
+                if pre[1] is not None and all(m.is_trained for m in pre[1]):
+                    model = pre[1][0]
+            except Rejected:
+                pass
+            recorder.drop_log(logname)
+            recorder.new_log(logname)
         with config_inject.chunk_sizes(predict=case.get("predict_chunk"), readall=case.get("readall_chunk")):
             error = None
             try:
@@ -189,6 +207,29 @@ def run_brew(case, tmp, train_fdr=0.23, override=True, max_iter=3, estimator=Non
 def full_keys(df, meta):
     cols = meta["key_cols"]
     return list(zip(*[df[c].tolist() for c in cols]))
+
+
+def mismatch_refused(case, tmp, models, folds):
+    """brew with trained fold models whose number differs from the requested fold count: there is no "model of its fold"
+    for every PSM then, so the call has to be refused.  Returns True when it raised, False when it returned scores."""
+    import mokapot
+
+    _, _, psms = build_datasets(case, tmp)
+    lognames = {getattr(m.estimator, "log", None) for m in models}
+    for n in lognames:
+        if n:
+            recorder.new_log(n)
+    try:
+        with config_inject.chunk_sizes(predict=case.get("predict_chunk"), readall=case.get("readall_chunk")):
+            try:
+                mokapot.brew(psms, list(models), test_fdr=case["test_fdr"], folds=folds, max_workers=1, rng=case["rng"])
+            except Exception:  # noqa: BLE001
+                return True
+        return False
+    finally:
+        for n in lognames:
+            if n:
+                recorder.drop_log(n)
 
 
 def rescore(case, tmp, models, order, capture_events=False, rng_shift=0):
